@@ -398,9 +398,20 @@ def gen_prism(r) -> Tuple[List[Tuple[float, float, float]], str]:
     else:
         kind += "_cw" if G.polygon_area(poly) < 0 else "_ccw"
     z0, z1 = sorted([r.uniform(-2, 1), r.uniform(1.5, 5)])
+    # the second plane is the same polygon; it may be written starting from another corner or in the other sense of rotation
+    second = list(poly)
+    how = r.choice(["same", "same", "rotated", "reversed"])
+    if how != "same":
+        k = r.randrange(len(poly))
+        second = second[k:] + second[:k]
+        if how == "reversed":
+            second = list(reversed(second))
+        kind += "_2nd_" + how
     lower = [(x, y, z0) for x, y in poly]
-    upper = [(x, y, z1) for x, y in poly]
-    return (lower + upper if r.random() < 0.5 else upper + lower), kind
+    upper = [(x, y, z1) for x, y in second]
+    if r.random() < 0.5:
+        return lower + upper, kind
+    return [(x, y, z1) for x, y in poly] + [(x, y, z0) for x, y in second], kind
 
 
 def run(ctx: Ctx) -> None:
